@@ -49,6 +49,7 @@ NOTES = {
 
 def main():
     rows = []
+    total = reported = own_reported = 0
     for d in sorted(glob.glob(os.path.join(ROOT, "seeded", "*"))):
         name = os.path.basename(d)
         m = json.load(open(os.path.join(d, "meta.json")))
@@ -58,7 +59,14 @@ def main():
                 sig = c.get("signature") or ""
                 sig = sig.split(":", 1)[1] if sig.startswith(("C", "merge")) and ":" in sig else sig
                 by.append(f"{pid} `{sig}`" if sig and sig != "no-failing-input-found" else f"{pid} (correspondence)")
-        rows.append(f"| {name} | {', '.join(by) if by else '—'} | {NOTES.get(name, '—')} |")
+        note = NOTES.get(name, "—")
+        own = m.get("checks", {}).get(m["property"], {}).get("detected")
+        if not own and by and note == "—":
+            note = f"not reached by the {m['property']} check; the mechanism is reported by the check(s) on the left"
+        total += 1
+        reported += bool(by)
+        own_reported += bool(own)
+        rows.append(f"| {name} | {', '.join(by) if by else '—'} | {note} |")
     table = ("| Seeded change | Reported by (signature) | What had to be strengthened first |\n|---|---|---|\n"
              + "\n".join(rows) + "\n")
     p = os.path.join(ROOT, "DESIGN.md")
@@ -69,8 +77,12 @@ def main():
     else:
         old = s[s.index("| Seeded change | Reported by (signature)"):s.index("A further change met while seeding")]
         s = s.replace(old, a + table + b + "\n")
+    import re as _re
+    s = _re.sub(r"<!-- seeded-counts -->.*?<!-- /seeded-counts -->",
+                f"<!-- seeded-counts -->{total} recorded changes: {reported} are reported by a check, {own_reported} of them by the "
+                f"check of the property they were written against<!-- /seeded-counts -->", s, flags=_re.S)
     open(p, "w").write(s)
-    print(len(rows), "rows")
+    print(len(rows), "rows;", reported, "reported;", own_reported, "by own property")
 
 
 if __name__ == "__main__":
